@@ -9,6 +9,12 @@ META = {
              note='NaN times excluded (schedule asserts time >= clock).'),
  'C02': dict(text='The five comparison functions used with a hashheap are proved strict (total/weak) orders.',
              note=''),
+ 'C05': dict(text='resource_grab contract (requires holder == NULL) enforced on its body and asserted at every call site; acquire proved with a loop contract for any number of waits against contract stubs of the guard; release/preempt/drop preserve I-RES for record lists <= 2 (bounded-shape); queries loop-free.',
+             note='guard/timeseries/event layers replaced by contract stubs; other processes act only through the API; list caps for bounded-shape groups.'),
+ 'C11': dict(text='cmb_buffer_get/put proved with loop contracts on the real while(true) loops (any number of partial transfers and waits, all 64-bit amounts): per-segment conservation, exact reporting, 0<=level<=capacity; I-SIG and I-REC at every suspension point.',
+             note='guard wait/signal, timeseries and clock are contract stubs (harness/cmv_guardstub.h); caller amount variable not aliased.'),
+ 'C15': dict(text='initialize(seed) proved equal to the documented splitmix64 bootstrap + 20 discards from an arbitrary prior state (z3); one sfc64 step equals the spec; flip cache emptied by seeding and flip step contract; gamma/geometric caches proved transparent; all static objects thread-local and accounted for (symbol table).',
+             note='oracle = transcription of the published algorithms; libm uninterpreted in the cache groups; no thread interleaving is explored (sequential contracts + no shared mutable state).'),
  'C06': dict(text='guard_queue_check proved equal to (priority desc, entry time asc, key asc) and a strict total order for all bit patterns.',
              note='NaN entry times excluded (cmb_time() is never NaN).'),
  'C07': dict(text='holder_queue_check proved a strict total order (priority asc, key desc).', note=''),
